@@ -1,6 +1,6 @@
 (* C10 -- comparison operators.  Theorem statements only; proofs in Cmp.v. *)
 From Coq Require Import String ZArith Bool Arith List.
-From SV Require Import Names NamesFacts ListFacts Rep Fresh Complex Atomic RepInv Cmp Shapes CopyFaithful.
+From SV Require Import Names NamesFacts ListFacts Rep Fresh Complex Atomic RepInv Cmp Shapes CopyFaithful Closed ClosedReach Smaller.
 Import ListNotations.
 
 (* a <= b exactly when every simplex listed in a occurs in b with the same order and with its
@@ -47,3 +47,14 @@ Theorem C10_copy_equals_source :
   copy_new hp (view_of a) uid = (hp', c, Ok tt) -> c_eq a c = true.
 Proof. exact copy_equals_source. Qed.
 Print Assumptions C10_copy_equals_source.
+
+(* ... in particular every copy of a complex built by public operations equals it *)
+Theorem C10_copy_equals_source_public :
+  forall hp a uid hp' c, cinv a -> copy_new hp (view_of a) uid = (hp', c, Ok tt) -> c_eq a c = true.
+Proof. exact copy_equals_source_public. Qed.
+Print Assumptions C10_copy_equals_source_public.
+(* deleting any simplex of a complex makes it strictly smaller than it was *)
+Theorem C10_delete_makes_strictly_smaller :
+  forall r s r' x, sinv r -> containsSimplex r s = true -> deleteSimplex r s = (r', x) -> c_lt r' r = true.
+Proof. exact deleteSimplex_strictly_smaller. Qed.
+Print Assumptions C10_delete_makes_strictly_smaller.
